@@ -31,9 +31,19 @@ def ConfEntry (L : List Tx) (h : Nat) : Option (List Nat) → Prop
 
 def ConfOk (L : List Tx) (c : Nat → Option (List Nat)) : Prop := ∀ h, ConfEntry L h (c h)
 
+/-- half of the uint256 range: balances below it make the pool's uint256 additions exact -/
+def H256 : Nat := 2 ^ 255
+
+theorem two_H256 : H256 + H256 = U256 := by unfold H256 U256; omega
+
+theorem H256_pos : 0 < H256 := by unfold H256; exact Nat.two_pow_pos _
+
+/-- the balances the `Feer` reports (as uint256) are below 2^255 (GAS supply is below 2^63 · 10^8) -/
+def FeerOk (feer : Feer) : Prop := ∀ p s, feer.balance p s % U256 < H256
+
 def FeeEntry (L : List Tx) (q : Payer) : Option Fee → Prop
   | none => sumFees q L = 0
-  | some f => f.feeSum = sumFees q L ∧ f.feeSum ≤ f.balance ∧ f.balance < U256
+  | some f => f.feeSum = sumFees q L ∧ f.feeSum ≤ f.balance ∧ f.balance < H256
 
 def FeesOk (L : List Tx) (f : Payer → Option Fee) : Prop := ∀ q, FeeEntry L q (f q)
 
